@@ -1,8 +1,12 @@
+import re
 from .config import Config
 from .abbreviation.convert import AbbreviationAttribute, AbbreviationNode
 
 expression_start = '{'
 expression_end = '}'
+
+re_line_break = re.compile(r'\r\n|\r|\n')
+"Line breaks recognised in pushed strings. Unlike `str.splitlines()`, a trailing break is kept"
 
 class OutputStream:
     __slots__ = ('options', '_value', 'level', 'offset', 'line', 'column')
@@ -37,7 +41,7 @@ class OutputStream:
         # use `push_newline()` to maintain proper line/column state
         first = True
 
-        for line in value.splitlines():
+        for line in re_line_break.split(value):
             if not first: self.push_newline(True)
             first = False
             self.push(line)
